@@ -22,6 +22,13 @@ fi
 if ! (cd "$scratch/repo" && go build ./... ) >"$scratch/build.log" 2>&1; then
   echo "MUTANT $(basename "$patch"): does not build"; head -5 "$scratch/build.log"; exit 4
 fi
+if [ -n "${MUTANT_RENAME:-}" ]; then
+  # additionally rename every unexported field, type and function of the variant (tools/renameall): the breakage
+  # must still be reported when no unexported name of the reference tree survives
+  [ -x "$here/bin/renameall" ] || (cd "$here/tools/renameall" && go build -o "$here/bin/renameall" .) || exit 2
+  "$here/bin/renameall" -dir "$scratch/repo" -fields -types -funcs >/dev/null || { echo "MUTANT $(basename "$patch"): rename failed"; exit 4; }
+  (cd "$scratch/repo" && go build ./...) >"$scratch/build.log" 2>&1 || { echo "MUTANT $(basename "$patch"): renamed variant does not build"; head -5 "$scratch/build.log"; exit 4; }
+fi
 "$here/build.sh" || exit 2
 rc=0
 for p in "${props[@]}"; do
